@@ -1419,10 +1419,30 @@ func transportEndpointTypesDistinct(c *core.Ctx, r *core.Rule) {
 		}
 		core.Instrs(fn, func(ins ssa.Instruction) {
 			cc := core.CallCommonOf(ins)
-			if cc == nil || cc.StaticCallee() != nf || len(cc.Args) != 3 {
+			if cc == nil || cc.StaticCallee() == nil {
 				return
 			}
-			if k, ok := layerTypeName(cc.Args[0]); ok {
+			var typ ssa.Value
+			if cc.StaticCallee() == nf && len(cc.Args) == 3 {
+				typ = cc.Args[0]
+			} else if w := cc.StaticCallee(); len(w.Blocks) == 1 && w.Signature.Recv() == nil {
+				// a plain forwarding wrapper: return NewFlow(param_i, …)
+				core.Instrs(w, func(j ssa.Instruction) {
+					c2 := core.CallCommonOf(j)
+					if c2 == nil || c2.StaticCallee() != nf || len(c2.Args) != 3 {
+						return
+					}
+					for i, pa := range w.Params {
+						if c2.Args[0] == ssa.Value(pa) && i < len(cc.Args) {
+							typ = cc.Args[i]
+						}
+					}
+				})
+			}
+			if typ == nil {
+				return
+			}
+			if k, ok := layerTypeName(typ); ok {
 				n++
 				byType[k] = append(byType[k], recvTypeName(fn))
 			}
